@@ -32,7 +32,7 @@ _FINDINGS_VARIANT = _findings_variant(['apply_stack_effects', 'spec:handler_dept
 
 PROPS['C06'] = dict(
   level='proof',
-  verus=[dict(unit='peephole', min_functions=4), dict(unit='bytecode', min_functions=10), _FINDINGS_VARIANT],
+  verus=[dict(unit='peephole', min_functions=4), dict(unit='bytecode', min_functions=10), dict(unit='ops', min_functions=30), _FINDINGS_VARIANT],
   not_decided=['O-06.9 constants/locals/captures/cache indices in range: carried by Compiler methods outside reach',
                'A-shape: labels unique and dense, jump direction (compiler output shape)',
                'A-fiber: push_frame/ensure_stack reserve max_slots above the arguments (raw-pointer code, unverified)',
